@@ -105,6 +105,11 @@ def natStep (s : St) (w : List String) : Option (St × String) :=
       | some v => if v ≤ MAX64 then some v else none
       | none => none)
     pure (put s x (Natural.fromLeDigits digits))
+  | ["clonefrom", z, x, y] => do
+    -- `z := x.clone(); z.clone_from(&y)`: the value is `y`'s, whatever `x` was
+    let _ ← s.nat[x]?
+    let b ← s.nat[y]?
+    pure (put s z b)
   | ["add", z, x, y] => do
     let a ← s.nat[x]?
     let b ← s.nat[y]?
